@@ -123,7 +123,7 @@ def build_layer(case):
     d = case.get("delay")
     maxdelay = None if d is None else float(d["max"] * dt)
     syn = DeltaCurrent.partialconstructor(1.0)
-    kw = dict(synapse=syn, delay=maxdelay, batch_size=B)
+    kw = dict(synapse=syn, delay=maxdelay, batch_size=B, bias=bool(case.get("bias", False)))
     c = case["conn"]
     if c == "dense":
         conn = LinearDense(ishape, oshape, dt, **kw)
@@ -200,11 +200,24 @@ def _np(t):
     return None if t is None else t.detach().to(torch.float64).reshape(-1).numpy().copy()
 
 
-def drive(case, layer, trainer, on_call=None):
+def call_trainer(case, trainer, t, fdt):
+    """One trainer call of step ``t`` (with the step's reward for modulated rules)."""
+    if case["trainer"] in MODULATED or case["trainer"].endswith(("MSTDP", "MSTDPD")):
+        sig = case["signal"][t]
+        if isinstance(sig, list):
+            sig = torch.tensor(sig, dtype=fdt)
+        trainer(sig, case.get("scale", 1.0))
+    else:
+        trainer()
+
+
+def drive(case, layer, trainer, param="weight", call=call_trainer, before_update=None,
+          after_update=None):
     """Runs the history; returns (post history actually produced, observations).
 
     observations: list of ("call", t, pos, neg) after every trainer call and
-    ("update", t, weight) after every connection.update(); arrays are flat float64.
+    ("update", t, param value) after every connection.update(); arrays are flat
+    float64 (``pos`` / ``neg`` are None when the accumulator holds no such part).
     """
     ishape, oshape, ni, no = shapes_of(case)
     B, T = case["B"], case["T"]
@@ -230,23 +243,19 @@ def drive(case, layer, trainer, on_call=None):
         posts.append(out.reshape(B, no).to(torch.int64).tolist())
         if case["called"][t]:
             with impl(f"trainer step {t}"):
-                if case["trainer"] in MODULATED:
-                    sig = case["signal"][t]
-                    if isinstance(sig, list):
-                        sig = torch.tensor(sig, dtype=fdt)
-                    trainer(sig, case.get("scale", 1.0))
-                else:
-                    trainer()
-                acc = conn.updater.weight
+                call(case, trainer, t, fdt)
+                acc = getattr(conn.updater, param)
                 pos, neg = acc.pos, acc.neg
             obs.append(("call", t, _np(pos), _np(neg)))
-            if on_call is not None:
-                on_call(t, pos, neg)
         if case["update"][t] or t == T - 1:
+            if before_update is not None:
+                before_update(t)
             with impl(f"connection.update step {t}"):
                 conn.update()
-                w = conn.weight
+                w = getattr(conn, param)
             obs.append(("update", t, _np(w)))
+            if after_update is not None:
+                after_update(t)
     return posts, obs
 
 
